@@ -2,6 +2,8 @@
 
 package slip
 
+import "strings"
+
 const (
 	// AmpBody is &body.
 	AmpBody = "&body"
@@ -40,6 +42,26 @@ type FuncDoc struct {
 type HasFuncDocs interface {
 	// FuncDocs returns the documentation for the object.
 	FuncDocs() *FuncDoc
+}
+
+// getKeyArg returns the &key parameter with the given name, the name without
+// the leading colon of the keyword, or nil if the lambda list has no such
+// &key parameter.
+func (fd *FuncDoc) getKeyArg(name string) *DocArg {
+	inKeys := false
+	for _, a := range fd.Args {
+		switch strings.ToLower(a.Name) {
+		case AmpKey:
+			inKeys = true
+		case AmpAllowOtherKeys, AmpAux:
+			inKeys = false
+		default:
+			if inKeys && a.Name == name {
+				return a
+			}
+		}
+	}
+	return nil
 }
 
 // LoadForm return a argument list for function or lambda args list.
